@@ -11,7 +11,7 @@ sweep = importlib.util.module_from_spec(spec); spec.loader.exec_module(sweep)
 ALL = ["C%02d" % i for i in range(1, 21)]
 
 ROUND = os.environ.get("HELDOUT_ROUND", "3")
-PATTERNS = {"3": ("*c-[0-9]", "*-ok[45]"), "4": ("*d-[0-9]", "*-ok[67]"), "5": ("*e-[0-9]", "*-ok[89]")}[ROUND]
+PATTERNS = {"6": ("*f-[0-9]", "*-ok1[01]"), "3": ("*c-[0-9]", "*-ok[45]"), "4": ("*d-[0-9]", "*-ok[67]"), "5": ("*e-[0-9]", "*-ok[89]")}[ROUND]
 V3 = "/tmp/variants_r" + ROUND
 
 
